@@ -25,6 +25,13 @@ from . import c02_common as cc
 BLOCKSIZE_MAX = 131072
 KEY_SKIP = "C10-skippable-hint-overshoot"          # hint passes the end of a skippable frame whose magic was already seen
 KEY_EARLY = "C10-hint-overshoot-before-magic"      # hint passes the end of a tiny skippable frame before 4 bytes of it were seen
+# API-level compression histories (harness/c10_api.c)
+KEY_W1 = "C10-stablein-deferred-flushstream-drops-input"     # wrapper presents {NULL,0,0} although stable input is deferred
+KEY_W2 = "C10-reset-keeps-deferred-stable-input"             # ZSTD_CCtx_reset leaves stableIn_notConsumed set
+KEY_W3 = "C10-stablein-wrapper-partial-consumption-lost"     # a wrapper consumed the deferred input partially and recorded its private position
+KEY_W4 = "C10-stablein-wrapper-pins-null-buffer"             # a frame started by a wrapper expects the fabricated null input as the stable buffer
+KEY_W5 = "C10-stablein-param-change-drops-deferred-input"    # the input mode was changed while stable input was deferred
+KEY_L1 = "C10-legacy-stableout-dstbuffer-wrong"              # legacy frame + ZSTD_d_stableOutBuffer: expectedOutBuffer not updated
 
 
 # ---------------------------------------------------------------------------------------------
@@ -75,6 +82,37 @@ def special_streams(rng):
     return out
 
 
+def legacy_streams():
+    """the v0.5 / v0.6 / v0.7 frames of /repo/tests/legacy.c (the library is built with ZSTD_LEGACY_SUPPORT=5): decoded by
+    lib/legacy through ZSTD_decompressStream only; real decoder only (no model of the legacy formats)"""
+    import os
+    import re
+    try:
+        src = open(os.path.join(core.REPO, "tests", "legacy.c")).read()
+    except OSError:
+        return []
+    m = re.search(r'const char\* const COMPRESSED =\s*((?:\s*"(?:\\x[0-9A-Fa-f]{2})+"\s*)+);', src)
+    e = re.search(r'const char\* const EXPECTED =\s*((?:\s*"(?:[^"\\]|\\.)*"\s*)+);', src)
+    if not m or not e:
+        return []
+    data = bytes(int(h, 16) for h in re.findall(r"\\x([0-9A-Fa-f]{2})", m.group(1)))
+    idx = [i for i in range(len(data) - 3) if data[i + 1:i + 4] == b"\xb5\x2f\xfd" and data[i] in (0x24, 0x25, 0x26, 0x27, 0x28)]
+    frames = [data[a:b] for a, b in zip(idx, idx[1:] + [len(data)])]
+    text = "".join(re.findall(r'"((?:[^"\\]|\\.)*)"', e.group(1)))
+    text = text.replace("\\n", "\n").encode("utf-8")
+    one = text[: len(text) // 5] if len(text) % 5 == 0 else None
+    out = []
+    for f in frames:
+        if f[0] in (0x25, 0x26, 0x27) and one is not None:
+            out.append(dict(frame=f, content=one, parts=[(len(f), len(one))], magicless=False, desc="legacy-v0.%d" % (f[0] - 0x20), legacy=True))
+    if len(out) == 3:
+        sk = st.skippable(b"ab", 3)
+        fr = out[2]["frame"] + sk + out[0]["frame"]
+        out.append(dict(frame=fr, content=one + one, parts=[(len(out[2]["frame"]), len(one)), (len(sk), 0), (len(out[0]["frame"]), len(one))],
+                        magicless=False, desc="legacy-v0.7+skip2+v0.5", legacy=True))
+    return out
+
+
 def multi_streams(rng, pool, n):
     """concatenations of frames / skippable frames (zstd1 format), biased to tiny skippable frames"""
     out = []
@@ -113,6 +151,8 @@ def hint_cases(rng, streams, quick):
     for s in streams:
         n, nc = len(s["frame"]), len(s["content"])
         modes = [("s", 1 << 20), ("c", 0)]
+        if s.get("legacy"):
+            modes = [("s", 1 << 20), ("s", 7), ("s", 100)]
         if nc <= 1200 and rng.random() < 0.5:
             modes.append(("s", rng.choice([1, 2, 3, 7, 100])))
         elif rng.random() < 0.3:
@@ -123,8 +163,20 @@ def hint_cases(rng, streams, quick):
                 fl["ml"] = True
             if rng.random() < 0.1:
                 fl["nock"] = True
+            if mode == "s" and cap == 1 << 20 and (s.get("legacy") or rng.random() < 0.15):
+                fl["so"] = True           # ZSTD_d_stableOutBuffer: same hints, no zdss_flush stage (real decoder only)
+            if mode == "s" and rng.random() < 0.2 and n > 1:
+                # the context first sees a part of the stream and is reset: the run itself must be what a fresh context does
+                fl["ab"] = rng.choice([1, 2, 4, 5, 6, 9, n // 2, n - 1, max(1, n - 4)])
             cases.append(dict(id="h%d" % len(cases), stream=s, mode=mode, cap=cap, flags=fl, follow=follow_bytes(rng, streams)))
+            if s.get("legacy") and fl.get("so"):
+                cases.append(dict(id="h%d" % len(cases), stream=s, mode=mode, cap=cap, flags={}, follow=follow_bytes(rng, streams)))
     return cases
+
+
+def mflags(fl):
+    """the flags the models know (an abandoned frame before the run is invisible to a model that starts fresh)"""
+    return dict((k, v) for k, v in fl.items() if k not in ("ab", "so"))
 
 
 def parse_hrecords(s, mode):
@@ -231,12 +283,15 @@ def run_hints(ctx, tie, hexe, cases, rexe=None):
         t = r.split(" ")
         c["out"] = codec.unhx(t[1])
         c["recs"] = parse_hrecords(t[2] if len(t) > 2 else "-", c["mode"])
+        c["nomodel"] = bool(s.get("legacy") or c["flags"].get("so"))
+        if c["nomodel"]:
+            continue
         # model side: the same presentation of bytes replayed on the extracted decoder model
         if c["mode"] == "s":
             calls = ";".join("%d:%d" % (x["offered"], c["cap"]) for x in c["recs"])
-            mlines.append("X %s %s %s %s" % (c["id"], st.model_dflags(c["flags"]), codec.hx(s["frame"] + c["follow"]), calls or "-"))
+            mlines.append("X %s %s %s %s" % (c["id"], st.model_dflags(mflags(c["flags"])), codec.hx(s["frame"] + c["follow"]), calls or "-"))
         else:
-            mlines.append("B %s %s %s" % (c["id"], st.model_dflags(c["flags"]), codec.hx(s["frame"])))
+            mlines.append("B %s %s %s" % (c["id"], st.model_dflags(mflags(c["flags"])), codec.hx(s["frame"])))
     tie.m
     t2 = time.time()
     mout, merrs = tie.model(mlines)
@@ -248,7 +303,7 @@ def run_hints(ctx, tie, hexe, cases, rexe=None):
     if rexe is not None:
         cand = []
         for c in cases:
-            if c["recs"] is None or (c["mode"] == "s" and c["cap"] < BLOCKSIZE_MAX):
+            if c["recs"] is None or (c["mode"] == "s" and c["cap"] < BLOCKSIZE_MAX) or c.get("nomodel"):
                 continue
             s = c["stream"]
             ends = [e[0] for e in st.frame_ends(s["parts"])]
@@ -264,7 +319,7 @@ def run_hints(ctx, tie, hexe, cases, rexe=None):
             s = c["stream"]
             tail = codec.hx(s["frame"][a:b] + (s["frame"][b:b + 16] + c["follow"])[:16])
             rlines.append("E %s.e%d %d %s" % (c["id"], fi, 1 if s["magicless"] else 0, tail))
-            rlines.append("R %s.r%d %s %s %s %d %d" % (c["id"], fi, st.model_dflags(c["flags"]), tail, c["mode"], max(c["cap"], 1), b - a))
+            rlines.append("R %s.r%d %s %s %s %d %d" % (c["id"], fi, st.model_dflags(mflags(c["flags"])), tail, c["mode"], max(c["cap"], 1), b - a))
     rout, rerrs = st.run_lines(rexe, rlines, big_stack=True) if rlines else ({}, [])
     core.log("hint phase: real decoder %.0fs, model build/lock %.0fs, lock-step model %.0fs, Gallina readers %.0fs (%d lines)"
              % (t1 - t0, t2 - t1, t3 - t2, time.time() - t3, len(rlines)))
@@ -281,13 +336,17 @@ def run_hints(ctx, tie, hexe, cases, rexe=None):
                    parts=s["parts"], desc=s["desc"], content_hex=s["content"].hex()[:100000],
                    calls=["%(req)d@%(pos)d:%(offered)d->%(consumed)d:%(produced)d:%(ret)s" % x for x in recs][:300])
         v = check_hint_oracle(recs, c["out"], s, c["mode"])
+        if v and v[0] is None and s.get("legacy") and c["flags"].get("so") and "dstBuffer_wrong" in v[2]:
+            v = (KEY_L1,) + tuple(v[1:])
         if v:
             nviol += 1
             api = "ZSTD_decompressStream" if c["mode"] == "s" else "ZSTD_decompressContinue"
             ctx.violation(rep, what="%s read by hint (%s, output room %d, %d byte(s) follow the stream): %s" % (api, s["desc"], c["cap"], len(c["follow"]), v[2]), key=v[0])
         # correspondence with the model on the same presentation
         m = mout.get(c["id"])
-        if m is None or not (m.startswith("OK ") or m.startswith("ERR ")):
+        if c.get("nomodel"):
+            pass
+        elif m is None or not (m.startswith("OK ") or m.startswith("ERR ")):
             ctx.violation(dict(rep, model=str(m)[:300]), what="streaming decoder model gave no result for a hint-following history (%s)" % (str(m)[:120],), no_input=True)
         elif c["mode"] == "s":
             t = m.split(" ")
@@ -430,6 +489,11 @@ def c10_compressor_cases(ctx, rng, n, mt=False):
                 if not mt and rng.random() < 0.6:
                     c["params"].pop("stableOut", None)
                     c["params"]["stableIn"] = 1
+        if mt:
+            # whether the pledge is right depends on how much the job ring takes per call (a first frame that ends before the
+            # whole input went in makes it wrong; before /repo 0be3b02 a wrong pledge was not even refused with nbWorkers >= 1
+            # but gave an undecodable frame, docs/C10.md section 4): multithreaded histories carry no pledge
+            c["pledged"] = None
         c["id"] = ("m" if mt else "k") + c["id"][1:]
     return cases
 
@@ -457,7 +521,7 @@ def compressor_post(ctx, tie, cases, rng, max_model_prefix=40000):
                 bad = (i, "call %d (directive %d) returned %d (not complete) although it left %d of %d byte(s) of output room unused"
                        % (i, r["dir"], ret, r["cap"] - r["produced"], r["cap"]))
                 break
-            if not c["mt"] and r.get("hint", 0) > BLOCKSIZE_MAX:
+            if not c["mt"] and r.get("hint", 0) > BLOCKSIZE_MAX + 1:      # + 1: inBuffTarget = blockSize + 1 when the pledged size is exactly one block
                 bad = (i, "after call %d the input size hint (what ZSTD_compressStream returns) is %d: larger than a block (%d), i.e. wrapped around / an error code for a successful call"
                        % (i, r["hint"], BLOCKSIZE_MAX))
                 break
@@ -496,12 +560,439 @@ def compressor_post(ctx, tie, cases, rng, max_model_prefix=40000):
     return nfl, nviol
 
 
+
+# ---------------------------------------------------------------------------------------------
+# API-level compression histories (harness/c10_api.c): ZSTD_compressStream2 / ZSTD_compressStream / ZSTD_flushStream /
+# ZSTD_endStream, parameter changes between frames, abandoned frames (ZSTD_CCtx_reset), single- and multi-threaded
+
+AFIELDS = ["kind", "offered", "cap", "dir", "consumed", "produced", "ret", "streamStage", "inBuffPos", "inToCompress", "inBuffTarget",
+           "outBuffContentSize", "outBuffFlushedSize", "frameEnded", "notConsumed", "blockSize", "inBuffSize", "outBuffSize", "hint",
+           "windowLog", "maxBlockSize", "view", "appliedSI", "appliedNbWorkers", "fin", "fout", "ipos", "opos", "toFlushNow",
+           "fp_ingested", "fp_consumed", "fp_produced", "fp_flushed", "dec", "declen", "checksum", "expPos", "expSize"]
+A_IN = ["0", "1", "2", "3", "100", "1000", "5000", "h", "h-1", "h+1", "b", "b-1", "b+1", "a"]
+A_CAP = ["r", "r", "r", "0", "1", "2", "3", "5", "100", "1000", "c", "c-1", "C", "C-1", "C+1"]
+PID = codec.P
+
+
+def parse_arecords(s):
+    recs = []
+    if s == "-":
+        return recs
+    for r in s.split(";"):
+        if not r:
+            continue
+        d = {}
+        for k, x in zip(AFIELDS, r.split(":")):
+            d[k] = x if k in ("kind", "ret") else int(x)
+        recs.append(d)
+    return recs
+
+
+def api_ops(rng, stable_start):
+    """a history of 1..3 frames mixing the four entry points; [stable_start]: the context is in stable-input mode when a frame
+    starts, so no frame is started by a wrapper (that is the separate observation KEY_W4, covered by the targeted histories)"""
+    ops = []
+    si = stable_start
+    for f in range(rng.choice([1, 1, 2, 3])):
+        if rng.random() < 0.25:
+            si = rng.choice([0, 1])
+            ops.append("p%d=%d" % (PID["stableIn"], si))
+        if rng.random() < 0.15:
+            ops.append("p%d=%d" % (PID["nbWorkers"], rng.choice([0, 1, 2])))
+        if rng.random() < 0.1:
+            ops.append("p%d=%d" % (PID["checksum"], rng.choice([0, 1])))
+        started = False
+        for _ in range(rng.randint(0, 8)):
+            r = rng.random()
+            if r < 0.35 or (si and not started and r < 0.8):
+                ops.append("c%s:%s:%d" % (rng.choice(A_IN), rng.choice(A_CAP), rng.choice([0, 0, 0, 1])))
+                started = True
+            elif r < 0.5:
+                ops.append("s%s:%s" % (rng.choice(A_IN), rng.choice(A_CAP)))
+                started = True
+            elif r < 0.75:
+                ops.append("f%s" % rng.choice(A_CAP))
+                started = True
+            elif r < 0.8:
+                ops.append("t")
+            elif r < 0.84:
+                ops.append("R")
+                started = False
+            elif r < 0.9:
+                ops.append("p%d=%d" % (PID["level"], rng.choice([1, 3, 5])))
+            else:
+                ops.append("c%s:%s:2" % (rng.choice(A_IN), rng.choice(A_CAP)))
+                started = True
+        if si and not started:
+            ops.append("c%s:%s:0" % (rng.choice(A_IN), rng.choice(A_CAP)))
+        style = rng.random()
+        if style < 0.4:
+            for _ in range(rng.randint(1, 12)):
+                ops.append("e%s" % rng.choice(["1", "2", "3", "5", "100", "r"]))
+            ops.append("er")
+        elif style < 0.7:
+            ops.append("c%s:%s:2" % (rng.choice(A_IN), rng.choice(A_CAP)))
+            for _ in range(rng.randint(0, 6)):
+                ops.append(rng.choice(["e1", "e3", "e100", "ca:1:2", "ca:3:2", "ca:100:2"]))
+            ops.append(rng.choice(["er", "ca:r:2"]))
+    return ";".join(ops) or "t"
+
+
+def api_targeted():
+    """the histories of the findings of this check, on a fresh context / after a buffered frame / after a stable-input frame"""
+    x = bytes(((i * 7) ^ (i >> 5)) & 255 for i in range(8000))
+    si = PID["stableIn"]
+    out = []
+    warm = [("fresh", {"stableIn": 1}, ""), ("after-buffered", {}, "c10:r:2;p%d=1;" % si), ("after-stable", {"stableIn": 1}, "c10:r:2;")]
+    for name, p0, pre in warm:
+        for tail, what in (("c1000:r:0;fr;er", "flushStream+endStream after a deferred call"), ("c1000:r:0;er", "endStream after a deferred call"),
+                           ("c1000:r:0;c500:r:0;f5;f5;fr;c200:r:0;e3;e3;er", "tiny flushStream / endStream calls around deferred calls"),
+                           ("c1000:r:0;R;c10:r:2", "reset while stable input is deferred, then a frame"),
+                           ("c1000:r:0;R;c10:r:0;fr;er", "reset while stable input is deferred, then wrappers"),
+                           ("c5000:r:0;f3;fr;er", "flushStream through a tiny buffer after a deferred call"),
+                           ("c5000:r:0;f3;c100:r:0;f1;fr;e3;er", "direct call after a partial flushStream"),
+                           ("c5000:r:0;e3;e3;er", "endStream through a tiny buffer after a deferred call")):
+            for extra in ({}, {"windowLog": 10}, {"maxBlockSize": 1024, "checksum": 1}):
+                out.append(dict(x=x, params=dict(p0, **extra), ops=pre + tail, extra="", mt=False, kind="targeted", desc="%s, %s" % (what, name)))
+    for tail, what in (("c1000:r:0;p%d=0;c0:r:1;er" % si, "stable input switched off while input is deferred, then flush"),
+                       ("c1000:r:0;p%d=0;c500:r:1;c0:r:2" % si, "stable input switched off while input is deferred, then more input"),
+                       ("c1000:r:0;p%d=0;fr;er" % si, "stable input switched off while input is deferred, then the wrappers"),
+                       ("c1000:r:0;p%d=1;p%d=5;fr;er" % (PID["checksum"], PID["level"]), "other parameters changed while input is deferred")):
+        out.append(dict(x=x, params={"stableIn": 1}, ops=tail, extra="", mt=False, kind="targeted", desc=what))
+    for tail in ("c5000:r:0;f3;fr;er", "c1000:r:0;fr;er", "c1000:r:0;R;c10:r:2", "c5000:r:0;f3;c100:r:0;fr;er"):
+        for nb in (1, 2):
+            out.append(dict(x=x, params={"stableIn": 1, "nbWorkers": nb, "jobSize": 1, "windowLog": 10}, ops=tail, extra="", mt=True, kind="targeted",
+                            desc="multithreaded: " + tail))
+    # the observation KEY_W4: a frame started by a wrapper in stable-input mode
+    out.append(dict(x=x, params={"stableIn": 1}, ops="fr;c1000:r:0;er", extra="", mt=False, kind="targeted", desc="flushStream before the first input (stable input)"))
+    out.append(dict(x=x, params={"stableIn": 1}, ops="e1;e1;c1000:r:2", extra="", mt=False, kind="targeted", desc="endStream in pieces, then compressStream2 (stable input)"))
+    return out
+
+
+def api_cases(rng, n, mt):
+    cases = []
+    sizes = [0, 1, 2, 100, 1000, 1023, 1024, 1025, 2048, 3000, 5000, 9000, 20000, 40000]
+    for i in range(n):
+        size = rng.choice(sizes) if i >= 3 else rng.choice([131072, 140000, 300000])
+        kind = rng.choice(codec.KINDS)
+        x = codec.gen_input(rng, kind, size)
+        p = {"level": rng.choice([1, 1, 2, 3, 4, 5, -1])}
+        if rng.random() < 0.6:
+            p["windowLog"] = rng.choice([10, 10, 11, 12, 14, 17])
+        if rng.random() < 0.4:
+            p["checksum"] = 1
+        if rng.random() < 0.2:
+            p["contentSize"] = 0
+        if rng.random() < 0.15:
+            p["maxBlockSize"] = rng.choice([1024, 1025, 2000, 4096])
+        if rng.random() < 0.1:
+            p["format"] = 1
+        if rng.random() < 0.1:
+            p["targetCBlockSize"] = rng.choice([1340, 2000])
+        r = rng.random()
+        if r < 0.35:
+            p["stableIn"] = 1
+        elif r < 0.45:
+            p["stableOut"] = 1
+        elif r < 0.5:
+            p["stableIn"] = 1
+            p["stableOut"] = 1
+        if mt:
+            p["nbWorkers"] = rng.choice([1, 2, 3])
+            if rng.random() < 0.7:
+                p["jobSize"] = 1
+            if rng.random() < 0.3:
+                p["rsyncable"] = 1
+            if rng.random() < 0.3:
+                p["ldm"] = 1
+            if rng.random() < 0.3:
+                p["overlapLog"] = rng.choice([1, 5, 9])
+        elif rng.random() < 0.1:
+            p["ldm"] = 1
+        extra = ""
+        if rng.random() < 0.12:
+            extra = " dict=%s" % codec.hx(codec.gen_input(rng, kind, rng.choice([8, 100, 3000])))
+        cases.append(dict(x=x, params=p, ops=api_ops(rng, bool(p.get("stableIn"))), extra=extra, mt=mt, kind=kind, desc=""))
+    return cases
+
+
+def api_frame_init(recs, i):
+    """index of the call that initialised the frame record i belongs to (first record after the previous frame end / reset)"""
+    j = i
+    while j > 0 and not (recs[j - 1]["kind"] == "R" or (recs[j - 1]["dir"] == 2 and st.norm_ret(recs[j - 1]["ret"]) == 0 and recs[j - 1]["kind"] in "ce")):
+        j -= 1
+    return j
+
+
+def api_key(recs, i):
+    """stable key of the finding a violation at record i belongs to (None: unclassified)"""
+    if any(r["kind"] == "R" and r["notConsumed"] > 0 for r in recs[:i + 1]):
+        return KEY_W2
+    if any(r["kind"] in "csfe" and r["streamStage"] != 0 and r["appliedSI"] == 0 and not r["appliedNbWorkers"] and r["notConsumed"] > 0
+           for r in recs[:i + 1]) or (recs[i]["kind"] in "csfe" and isinstance(st.norm_ret(recs[i]["ret"]), tuple)
+                                      and recs[i]["appliedSI"] == 0 and recs[i]["notConsumed"] > 0 and recs[i]["streamStage"] != 0):
+        return KEY_W5      # a frame initialised in buffered mode while stable-input bytes were still owed
+    f0 = api_frame_init(recs, i)
+    for j in range(f0, i + 1):
+        r = recs[j]
+        if r["kind"] in "fe" and r["view"] == 0 and j > 0 and recs[j - 1]["notConsumed"] > 0:
+            return KEY_W1
+    for j in range(f0, i + 1):
+        r = recs[j]
+        if (r["kind"] in "fe" and r["view"] == 1 and not isinstance(st.norm_ret(r["ret"]), tuple) and r["streamStage"] != 0
+                and r["appliedSI"] and r["expPos"] + r["notConsumed"] < r["ipos"]):
+            return KEY_W3
+    # a frame initialised by a wrapper that presented the null input, in stable-input mode
+    for k in range(f0, i + 1):
+        r = recs[k]
+        if r["kind"] not in "csfe" or isinstance(st.norm_ret(r["ret"]), tuple):
+            continue
+        if r["streamStage"] != 0 or (r["dir"] == 2 and st.norm_ret(r["ret"]) == 0):      # this call initialised the frame
+            if r["kind"] in "fe" and r["view"] == 0 and r["appliedSI"] == 1:
+                return KEY_W4
+            break
+    return None
+
+
+def api_oracles(c, recs):
+    """part (a) and (b) of the statement on the observed calls -> [(record index, text)]"""
+    bad = []
+    p = c["params"]
+    for i, r in enumerate(recs):
+        ret = st.norm_ret(r["ret"])
+        name = {"c": "ZSTD_compressStream2", "s": "ZSTD_compressStream", "f": "ZSTD_flushStream", "e": "ZSTD_endStream", "p": "ZSTD_CCtx_setParameter",
+                "R": "ZSTD_CCtx_reset", "t": "ZSTD_toFlushNow"}.get(r["kind"], r["kind"])
+        if isinstance(ret, tuple):
+            if r["kind"] == "p":
+                continue
+            legit = (any(x["kind"] != "p" and x.get("so") for x in ()) or False)
+            so = bool(p.get("stableOut"))
+            if not (so and ret[1] == "dstSize_tooSmall"):
+                bad.append((i, "%s failed with %s in a legal history" % (name, ret[1])))
+            break
+        held0 = recs[i - 1]["notConsumed"] if i > 0 else 0
+        if (r["kind"] in "cs" and r["offered"] > 0 and r["cap"] > 0 and r["consumed"] <= 0 and r["produced"] == 0
+                and r["consumed"] + held0 - r["notConsumed"] <= 0):
+            bad.append((i, "%s (directive %d) was offered %d byte(s) and %d byte(s) of output room but neither consumed nor produced"
+                        % (name, r["dir"], r["offered"], r["cap"])))
+        if r["kind"] in "cfe" and r["dir"] in (1, 2) and ret != 0 and r["produced"] != r["cap"]:
+            bad.append((i, "%s (directive %d) returned %d (not complete) although it left %d of %d byte(s) of output room unused"
+                        % (name, r["dir"], ret, r["cap"] - r["produced"], r["cap"])))
+        if r["dec"] == 0:
+            bad.append((i, "%s reported %s complete at call %d, but libzstd regenerates %d byte(s) from the %d byte(s) emitted for this frame while %d byte(s) were consumed in it"
+                        % (name, "the flush" if r["dir"] == 1 else "the frame", i, r["declen"], r["opos"] - r["fout"], r["ipos"] - r["fin"])))
+        if r["kind"] == "s" and not r["appliedNbWorkers"] and ret > BLOCKSIZE_MAX + 1:
+            bad.append((i, "ZSTD_compressStream returned the input size hint %d: larger than a block" % ret))
+        if i + 1 < len(recs) and r["toFlushNow"] > 0 and r["streamStage"] != 0 and r["kind"] != "R":
+            n = recs[i + 1]
+            if n["kind"] in "csfe" and not isinstance(st.norm_ret(n["ret"]), tuple) and n["produced"] < min(r["toFlushNow"], n["cap"]):
+                bad.append((i + 1, "ZSTD_toFlushNow announced %d byte(s) ready to be flushed, the next call (%d byte(s) of room) produced %d"
+                            % (r["toFlushNow"], n["cap"], n["produced"])))
+    return bad
+
+
+def run_api(ctx, exe, cases, tag, maxcalls=30000):
+    for i, c in enumerate(cases):
+        c["id"] = "%s%d" % (tag, i)
+    lines = ["A %s %s %s %s%s" % (c["id"], codec.params_str(c["params"]), codec.hx(c["x"]), c["ops"], c["extra"]) for c in cases]
+    out, errs = st.run_lines(exe, lines, timeout=240)
+    if errs:
+        for e in errs[:3]:
+            ctx.violation(dict(kind="api-history", line=e.get("first_unanswered", "")[:200000], rc=e.get("rc"), stderr=e.get("stderr", "")[-600:]),
+                          what="c10_api crashed or did not terminate within 240 s (rc %s) - first unanswered history: %s"
+                               % (e.get("rc"), e.get("first_unanswered", "")[:160]))
+    nviol = nflush = 0
+    hist = {}
+    prog_notes = 0
+    for c in cases:
+        r = out.get(c["id"])
+        c["arecs"] = None
+        if r is None:
+            continue
+        rep = dict(kind="api-history", params=c["params"], ops=c["ops"], extra=c["extra"].strip(), input_hex=c["x"].hex()[:200000], desc=c.get("desc", ""),
+                   smalljob=bool(c.get("smalljob")))
+        if not r.startswith("OK "):
+            ctx.violation(dict(rep, result=r[:300]), what="API history: parameter setup failed: %s (%s)" % (r[:100], c["params"]))
+            nviol += 1
+            continue
+        t = r.split(" ")
+        c["aout"] = codec.unhx(t[1])
+        recs = c["arecs"] = parse_arecords(t[2] if len(t) > 2 else "-")
+        rep["calls"] = ["%(kind)s:%(offered)d:%(cap)d:%(dir)d->%(consumed)d:%(produced)d:%(ret)s" % x for x in recs][:400]
+        bad = api_oracles(c, recs)
+        if len(recs) >= maxcalls:
+            bad.append((len(recs) - 1, "the history did not finish within %d calls" % maxcalls))
+        seen = set()
+        for i, text in bad:
+            key = api_key(recs, min(i, len(recs) - 1))
+            if key in seen:
+                continue
+            seen.add(key)
+            if key == KEY_W4:          # a known shape: two reports per run are enough, the rest is counted
+                ctx.notes["known_shape_%s" % KEY_W4] = ctx.notes.get("known_shape_%s" % KEY_W4, 0) + 1
+                if ctx.notes["known_shape_%s" % KEY_W4] > 2:
+                    continue
+            nviol += 1
+            mtag = "nbWorkers=%d%s" % (c["params"]["nbWorkers"], ", 4 KiB jobs" if c.get("smalljob") else "") if c["params"].get("nbWorkers") else "single-threaded"
+            ctx.violation(dict(rep, call=i), what="streaming API history (%s, params %s, ops %s%s): %s"
+                          % (mtag, c["params"], c["ops"][:100], (" - " + c["desc"]) if c.get("desc") else "", text), key=key)
+        nflush += sum(1 for x in recs if x["dec"] == 1)
+        for x in recs:
+            if x["fp_consumed"] > x["fp_ingested"] or x["fp_flushed"] > x["fp_produced"]:
+                prog_notes += 1
+            k = "%s/dir%d/%s" % (x["kind"], x["dir"], "mt" if x["appliedNbWorkers"] else "st")
+            hist[k] = hist.get(k, 0) + 1
+        sig = set()
+        for x in recs:
+            ret = st.norm_ret(x["ret"])
+            sig.add((x["kind"], x["dir"], "E" if isinstance(ret, tuple) else str(min(ret, 1)), x["streamStage"], x["view"], x["appliedSI"], x["appliedNbWorkers"] > 0,
+                     x["notConsumed"] > 0, x["consumed"] < 0, x["produced"] == 0, x["dec"]))
+        ctx.count(("A", tag, tuple(sorted(sig))), nontrivial=len(recs) > 1)
+        ctx.cov["traces_validated_against_impl"] += 1
+        if len(c["x"]) <= 100 and len(recs) < 10:
+            ctx.sample(dict(kind="api-history", params=c["params"], ops=c["ops"], input_hex=c["x"].hex(), calls=rep["calls"]))
+    if prog_notes:
+        ctx.notes["frame_progression_inconsistent_records"] = ctx.notes.get("frame_progression_inconsistent_records", 0) + prog_notes
+    return hist, nflush, nviol
+
+
+MFIELDS_A = ["view", "consumed", "produced", "ret", "streamStage", "inBuffPos", "inToCompress", "inBuffTarget", "outBuffContentSize",
+             "outBuffFlushedSize", "frameEnded", "notConsumed", "blockSize", "inBuffSize", "outBuffSize", "hint", "apos", "asize", "anull"]
+PFLAGS = {codec.P["stableIn"]: "si", codec.P["stableOut"]: "so", codec.P["format"]: "ml"}
+
+
+def api_lockstep(ctx, cd, rexe, cases, budget_bytes):
+    """the same API-level history on the extracted model of the entry points (coq/Stream/C10Api.v: a_call / a_stream /
+    a_flushStream / a_endStream / a_reset around the tape block compressor) - single-threaded histories whose output is a
+    sequence of complete frames.  Compared per call: what inBuffer_forEndFlush decides (view), consumed, produced, return value,
+    the private buffering fields, stableIn_notConsumed, the input size hint, and expectedInBuffer.pos / .size"""
+    elig, rcases = [], []
+    for c in cases:
+        recs = c.get("arecs")
+        if not recs or any(r["appliedNbWorkers"] for r in recs) or c["params"].get("nbWorkers"):
+            continue
+        if any(r["kind"] == "R" and j > 0 and recs[j - 1]["streamStage"] != 0 for j, r in enumerate(recs)):
+            continue        # a frame abandoned after its initialisation leaves the block-size tape of the real output unaligned
+        last = recs[-1]
+        if isinstance(st.norm_ret(last["ret"]), tuple) or not (last["dir"] == 2 and st.norm_ret(last["ret"]) == 0):
+            continue
+        if len(c["aout"]) > 60000 or len(c["aout"]) > budget_bytes or "dict=" in c["extra"]:
+            continue
+        budget_bytes -= len(c["aout"])
+        elig.append(c)
+        ml = bool(c["params"].get("format"))
+        rcases.append((c["id"], ",".join((["magicless"] if ml else []) + ["nostrict"]), None, c["aout"]))
+    if not elig:
+        return 0, 0
+    mres = cd.model(rcases)
+    lines = []
+    for c in elig:
+        m = mres.get(c["id"], ("ERR", "missing", -1))
+        if m[0] != "OK":
+            ctx.violation(dict(kind="api-history", params=c["params"], ops=c["ops"], extra=c["extra"].strip(), input_hex=c["x"].hex()[:200000],
+                               decoder="R", result=str(m[:2])[:200]),
+                          what="reference decoder R rejects the output of a completed API history (%s; params %s, ops %s)" % (m[1], c["params"], c["ops"][:100]))
+            continue
+        tape = cc.tape_of_trace(codec.parse_trace(m[2]))
+        if tape is None:
+            continue
+        # the requested parameters at every call (ZSTD_CCtx_setParameter ops that were accepted change them)
+        req = dict((codec.P[k] if isinstance(k, str) else k, v) for k, v in c["params"].items())
+        pops = [o for o in c["ops"].split(";") if o]
+        calls, krecs = [], []
+        opi = 0
+        for r in c["arecs"]:
+            if r["kind"] == "p":
+                # find the matching op text: p ops appear in order
+                while opi < len(pops) and not pops[opi].startswith("p"):
+                    opi += 1
+                if opi < len(pops):
+                    pid, v = pops[opi][1:].split("=")
+                    opi += 1
+                    if not isinstance(st.norm_ret(r["ret"]), tuple):
+                        req[int(pid)] = int(v)
+                continue
+            if r["kind"] == "t":
+                continue
+            fl = "+".join(f for pid, f in PFLAGS.items() if req.get(pid)) or "-"
+            calls.append("%s:%d:%d:%d:%d:%d:%s:%d" % (r["kind"], r["offered"], r["cap"], max(r["dir"], 0), r["windowLog"], r["maxBlockSize"], fl, r["checksum"]))
+            krecs.append(r)
+        c["krecs"] = krecs
+        lines.append("W %s %s %s %s %s" % (c["id"], codec.hx(c["x"]), ";".join(calls) or "-", codec.hx(c["aout"]), tape))
+    out, errs = st.run_lines(rexe, lines, big_stack=True) if lines else ({}, [])
+    if errs:
+        ctx.violation(dict(kind="model-crash", detail=errs[:2]), what="the extracted API model crashed: %r" % (errs[0],), no_input=True)
+    nok = ndiff = 0
+    for c in elig:
+        if "krecs" not in c:
+            continue
+        m = out.get(c["id"])
+        rep = dict(kind="api-history", params=c["params"], ops=c["ops"], extra=c["extra"].strip(), input_hex=c["x"].hex()[:200000], desc=c.get("desc", ""))
+        if m is None or not m.startswith("OK "):
+            ctx.violation(dict(rep, model=str(m)[:300]), what="the extracted API model gave no result (%s)" % (str(m)[:120],), no_input=True)
+            ndiff += 1
+            continue
+        t = m.split(" ")
+        mrecs = []
+        for x in t[1].split(";"):
+            if x:
+                d = {}
+                for k, v in zip(MFIELDS_A, x.split(":")):
+                    d[k] = v if k == "ret" else int(v)
+                mrecs.append(d)
+        diff = None
+        for i, (r, mr) in enumerate(zip(c["krecs"], mrecs)):
+            fields = ["view", "produced", "ret", "streamStage", "inBuffPos", "inToCompress", "inBuffTarget", "outBuffContentSize",
+                      "outBuffFlushedSize", "frameEnded", "notConsumed", "blockSize", "inBuffSize", "outBuffSize", "hint"]
+            if r["kind"] in "cs":
+                fields.append("consumed")
+            prev_null = mrecs[i - 1]["anull"] if i > 0 else 1
+            for f in fields:
+                a, b = r[f], mr[f]
+                if f == "view" and prev_null:
+                    b = 0       # the harness cannot tell the recorded all-zero buffer from {NULL,0,0}
+                if f == "ret":
+                    a, b = st.norm_ret(a), st.norm_ret(b)
+                    if isinstance(a, tuple) and isinstance(b, tuple):
+                        a, b = a[1], b[1]
+                if a != b:
+                    diff = (i, f, r[f], mr[f])
+                    break
+            if diff is None and not mr["anull"] and not isinstance(st.norm_ret(r["ret"]), tuple) and (
+                    (r["appliedSI"] and r["streamStage"] != 0) or r["notConsumed"] > 0):
+                if r["expPos"] != mr["apos"]:
+                    diff = (i, "expectedInBuffer.pos", r["expPos"], mr["apos"])
+                elif r["expSize"] != mr["asize"]:
+                    diff = (i, "expectedInBuffer.size", r["expSize"], mr["asize"])
+            if diff is not None:
+                break
+        if diff is None and len(mrecs) != len(c["krecs"]):
+            diff = (min(len(mrecs), len(c["krecs"])), "number-of-calls", len(c["krecs"]), len(mrecs))
+        if diff is None and "bad=1" in m:
+            diff = (len(mrecs), "chunk-alignment", "blocks of the real output", "do not regenerate the chunks the model hands to the block compressor")
+        if diff is not None:
+            ndiff += 1
+            i = diff[0]
+            if ndiff <= 5:
+                core.log("API lock-step difference: call %d field %s implementation %s model %s (params %s, ops %s)" % (i, diff[1], diff[2], diff[3], c["params"], c["ops"][:160]))
+            ctx.violation(dict(rep, first_difference=dict(call=i, field=diff[1], implementation=diff[2], model=diff[3]),
+                               impl_call=c["krecs"][i] if i < len(c["krecs"]) else None, model_call=mrecs[i] if i < len(mrecs) else None),
+                          what="the streaming entry points and their model (C10Api.v) disagree at call %d (%s) on %s: implementation %s, model %s (params %s, ops %s)"
+                               % (i, c["krecs"][i]["kind"] if i < len(c["krecs"]) else "-", diff[1], diff[2], diff[3], c["params"], c["ops"][:100]),
+                          no_input=True, key=api_key(c["arecs"], min(c["arecs"].index(c["krecs"][i]) if i < len(c["krecs"]) else len(c["arecs"]) - 1, len(c["arecs"]) - 1)))
+        else:
+            nok += 1
+            ctx.cov["traces_validated_against_impl"] += 1
+    return nok, ndiff
+
 # ---------------------------------------------------------------------------------------------
 
-def sanitizer_pass(ctx, hint_cases_, comp_cases):
-    """thorough tier, supporting test: the same histories on ASan+UBSan builds of the two harnesses; a trap is reported"""
+def sanitizer_pass(ctx, hint_cases_, comp_cases, api_cases_=()):
+    """thorough tier, supporting test: the same histories on ASan+UBSan builds of the three harnesses; a trap is reported"""
     hs = core.build_harness("c10_hints", ["c10_hints.c"], variant="asan", extra_flags=["-w"])
     ks = core.build_harness("c02_stream", ["c02_stream.c"], variant="asan", extra_flags=["-w"])
+    as_ = core.build_harness("c10_api", ["c10_api.c"], variant="asan", extra_flags=["-w"])
+    al = ["A %s %s %s %s%s" % (c["id"], codec.params_str(c["params"]), codec.hx(c["x"]), c["ops"], c["extra"]) for c in api_cases_]
     hl = ["H %s %s %s %d %s %d 300000" % (c["id"], st.dflags_str(c["flags"]), codec.hx(c["stream"]["frame"] + c["follow"]), len(c["stream"]["frame"]),
                                          c["mode"], c["cap"]) for c in hint_cases_]
     kl = []
@@ -511,13 +1002,18 @@ def sanitizer_pass(ctx, hint_cases_, comp_cases):
             l += " %d" % c["pledged"]
         kl.append(l)
     n = 0
-    for exe, lines, what in ((hs, hl, "c10_hints"), (ks, kl, "c02_stream")):
+    for exe, lines, what in ((hs, hl, "c10_hints"), (ks, kl, "c02_stream"), (as_, al, "c10_api")):
         out, errs = st.run_lines(exe, lines, timeout=900)
         for e in errs:
             n += 1
             ctx.violation(dict(kind="sanitizer", harness=what, detail=e), what="ASan/UBSan build of %s trapped or crashed: %s" % (what, str(e.get("stderr", ""))[-300:]))
-    ctx.notes["sanitizer_histories"] = len(hl) + len(kl)
+    ctx.notes["sanitizer_histories"] = len(hl) + len(kl) + len(al)
     return n
+
+
+def api_exes():
+    return (core.build_harness("c10_api", ["c10_api.c"], variant="o1", extra_flags=["-w"]),
+            core.build_harness("c10_api_smalljob", ["c10_api.c"], variant="o1", extra_defs=["-DZSTDMT_JOBSIZE_MIN=4096"], extra_flags=["-w"]))
 
 
 def replay(ctx, tie, cd, hexe):
@@ -538,6 +1034,11 @@ def replay(ctx, tie, cd, hexe):
         cases = [dict(id="d0", stream=s, ops=rp["ops"], flags=rp["flags"], maxcalls=60000)]
         cc.run_decoder_lockstep(ctx, tie, cases, prop="C10")
         decoder_post(ctx, cases)
+    elif kind == "api-history" and "params" in rp:
+        aexe, aexe_sj = api_exes()
+        c = dict(x=bytes.fromhex(rp["input_hex"]), params=rp["params"], ops=rp["ops"], extra=(" " + rp["extra"]) if rp.get("extra") else "",
+                 mt=bool(rp["params"].get("nbWorkers")), kind="replay", desc=rp.get("desc", ""), smalljob=bool(rp.get("smalljob")))
+        run_api(ctx, aexe_sj if c["smalljob"] else aexe, [c], "r")
     elif kind == "compress-history":
         c = dict(id="k0", x=bytes.fromhex(rp["input_hex"]), params=rp["params"], ops=rp["ops"], pledged=rp.get("pledged"), kind="replay",
                  mt=bool(rp["params"].get("nbWorkers")))
@@ -599,7 +1100,9 @@ def run(ctx):
         "every header form, empty last block) and multi-frame streams with skippable frames of payload 0..2000, always with bytes following the last frame; "
         "D: decoding histories of the C02 lock-step with the hint bound evaluated after every call; K/KMT: compression histories (flush at chosen buffer fill "
         "levels, tiny output room, several frames, stable buffers; KMT = nbWorkers 1..3, jobSize minimal) with per-call progress, fills-output-or-completes, "
-        "flush prefixes decoded by libzstd and by the reference decoder. Signature = set of (stage, directive, return class, progress pattern) tuples; "
+        "flush prefixes decoded by libzstd and by the reference decoder; A: API-level histories (ZSTD_compressStream2 / ZSTD_compressStream / ZSTD_flushStream / "
+        "ZSTD_endStream mixed, parameter changes between frames, ZSTD_CCtx_reset inside a frame, stable buffers, dictionary, nbWorkers 0..3 with rsyncable / LDM / "
+        "overlapLog, default and 4 KiB-job builds) with per-call progress, fills-output-or-completes, every completed flush / end decoded by libzstd. Signature = set of (stage, directive, return class, progress pattern) tuples; "
         "non-trivial = more than one call")
     # ---- part (c)
     n_lib, n_hand, n_multi = (40, 40, 10) if quick else (200, 200, 40)
@@ -607,7 +1110,7 @@ def run(ctx):
     streams = [s for s in streams if len(s["frame"]) > 0]
     sp = special_streams(rng)
     mult = multi_streams(rng, streams + sp, 25 if quick else 150)
-    hstreams = sp + mult + streams
+    hstreams = sp + mult + streams + legacy_streams()
     hc = hint_cases(rng, hstreams, quick)
     rexe = core.build_extracted("c10model", "Extract/Extract_C10.v", "c10_driver.ml")
     hhist, hv = run_hints(ctx, tie, hexe, hc, rexe)
@@ -636,6 +1139,7 @@ def run(ctx):
         c["params"].setdefault("windowLog", 10)
         if len(c["x"]) < 9000:
             c["x"] = c["x"] + codec.gen_input(rng, c["kind"], rng.choice([9000, 20000, 40000]))
+            c["pledged"] = None       # the pledge was the old size: a wrong pledge is not a legal history
     cc.run_compressor_lockstep(ctx, tie_sj, cd, ms)
     nfl3, kv3 = compressor_post(ctx, tie, ms, rng)
     nfl2, kv2 = nfl2 + nfl3, kv2 + kv3
@@ -646,8 +1150,28 @@ def run(ctx):
                                      multithreaded=sum(len(c.get("flushpoints", [])) for c in mc))
     core.log("compressor histories: %d single-threaded + %d multithreaded, flush points %d, violations %d (%.0fs)" % (len(kc), len(mc), nflush, kv + kv2, time.time() - ctx.t0))
 
+    # ---- parts (a), (b) at the level of the public entry points (wrappers, parameter changes, abandoned frames)
+    aexe, aexe_sj = api_exes()
+    ta = api_targeted()
+    a_st = ta + api_cases(rng, 120 if quick else 900, False)
+    a_mt = api_cases(rng, 60 if quick else 450, True)
+    a_sj = [dict(c, smalljob=True) for c in ta if c["mt"]] + [dict(c, smalljob=True) for c in api_cases(rng, 60 if quick else 450, True)]
+    ahist, afl, av = run_api(ctx, aexe, a_st, "a")
+    h2, f2, v2 = run_api(ctx, aexe, a_mt, "am")
+    h3, f3, v3 = run_api(ctx, aexe_sj, a_sj, "as")
+    for h in (h2, h3):
+        for k, v in h.items():
+            ahist[k] = ahist.get(k, 0) + v
+    lk_ok, lk_diff = api_lockstep(ctx, cd, rexe, a_st, 1200000 if quick else 8000000)
+    ctx.notes["api_lockstep"] = dict(histories_in_lockstep_with_C10Api_model=lk_ok, differences=lk_diff)
+    ctx.notes["api_histogram"] = ahist
+    ctx.notes["flush_points"]["api_flush_and_end_points_decoded_by_libzstd"] = afl + f2 + f3
+    core.log("API histories: %d single-threaded + %d multithreaded + %d multithreaded with 4 KiB jobs, %d completed flush/end points decoded, violations %d; "
+             "%d histories in lock-step with the C10Api model, %d differences (%.0fs)"
+             % (len(a_st), len(a_mt), len(a_sj), afl + f2 + f3, av + v2 + v3, lk_ok, lk_diff, time.time() - ctx.t0))
+
     if not quick:
-        sv = sanitizer_pass(ctx, hc, kc + mc[: len(mc) - len(ms)])
+        sv = sanitizer_pass(ctx, hc, kc + mc[: len(mc) - len(ms)], a_st + a_mt)
         core.log("sanitizer pass: %d traps (%.0fs)" % (sv, time.time() - ctx.t0))
 
     def search(broken):
